@@ -3,3 +3,4 @@ import Sio.Props.C04sched
 #print axioms Sio.C04sched.async_inv_every_step
 #print axioms Sio.C04sched.async_disconnect_once
 #print axioms Sio.C04sched.disconnect_once_sched
+#print axioms Sio.C04sched.bystander_frame
